@@ -45,6 +45,8 @@ class ConnCtx(FsmCtx):
             return None
         live = w.live_conns()
         due = w.reactor.due()
+        if cfg.get("p_hfail") and w.handler_fail_in is None and rng.chance(cfg["p_hfail"]):
+            return ["hfail", rng.randrange(1, 4)]
         choices = []
         pend = [k for k, c in enumerate(live) if c.state == "connecting"]
         readable = [k for k, c in enumerate(live) if c.readable()]
@@ -160,7 +162,7 @@ class ConnProfile(FsmProfile):
             "restriction on when pending connects are answered (or never), when the operator stops/starts, which connection "
             "(also stale ones) the peer talks on and when closes complete; at the end all timers are drained with the peer "
             "leaving everything open; non-trivial = reached OpenSent or beyond; distinct = distinct (state,event) cell sequence")
-    probes = ["exception_escaped_into_reactor(run continues)", "connect_attempts", "ev:conn_timeout", "ev:stop", "ev:start", "max_live_1", "drained_runs", "same_instant_choice"]
+    probes = ["op:hfail", "exception_escaped_into_reactor(run continues)", "connect_attempts", "ev:conn_timeout", "ev:stop", "ev:start", "max_live_1", "drained_runs", "same_instant_choice"]
 
     def gen_config(self, rng, idx, tier):
         cfg = swarm_config(rng, idx)
@@ -173,8 +175,12 @@ class ConnProfile(FsmProfile):
             cfg["md5"] = rng.pick(["s3cr3t", "k" * 81])
             cfg["sockopt_errno"] = rng.pick([None, 92, 22])
         if rng.chance(0.25):
-            # the application handler raises (storage full) at a few message callbacks
+            # the application handler raises (storage full) at a few callbacks for received messages (not at
+            # send_open: there the unchanged agent itself is left in Connect with the connection open and no
+            # timer running - DESIGN A.2 - so nothing can be demanded of a changed one)
             cfg["p_hfail"] = rng.pick([0.03, 0.08, 0.2])
+            cfg["hfail_only"] = ["on_update_error", "update_received", "keepalive_received", "open_received",
+                                 "route_refresh_received", "notification_received"]
         return cfg
 
 
@@ -472,6 +478,17 @@ class HealCtx(FsmCtx):
             if self.model.stopped or self.stopped_by_rest():
                 return ["rest", "GET", URL + "manual-start", "ok"]
             return ["coop"]
+        return None      # the cooperative phase is not generated: see auto_op()
+
+    @property
+    def auto_started(self):
+        return self.coop
+
+    def auto_op(self):
+        """Deterministic continuation run by the engine after the recorded ops, in generation and in
+        replay alike: what the cooperative peer does next, as a function of what it can see."""
+        if not self.coop or self.world.exited:
+            return None
         return self.coop_op()
 
     def stopped_by_rest(self):
@@ -490,11 +507,18 @@ class HealCtx(FsmCtx):
         # in OpenSent is dead: the peer's end is gone without a FIN/RST having reached the agent, nothing
         # will ever arrive on it, and only the agent's own hold timer can end the wait
         for k, c in enumerate(live):
-            if c.cid < self.first_coop_cid and c.state == "connected" and not (self.silent and c.readable()):
+            if c.cid < self.first_coop_cid and c.state == "connected" and not (self.silent and c.readable()) \
+                    and not (cfg.get("late_cdone") and c.closing()):
                 return ["pclose", k, False]
-        # 2. closes complete at once
+        # 2. closes complete at once -- or (variant) a close of the adversarial phase that is still pending at
+        # the switch completes only when the recovery session is up (the old connection's teardown is slow)
         for k, c in enumerate(live):
             if c.closing():
+                if cfg.get("late_cdone") and c.cid < self.first_coop_cid and self.t_estab is None \
+                        and (w.reactor.next_time() is not None or any(x.state == "connecting" or x.readable() for x in live)):
+                    continue
+                if cfg.get("late_cdone") and c.cid < self.first_coop_cid and self.t_estab is not None:
+                    self.stats["gen:close_of_old_connection_completes_after_recovery"] += 1
                 return ["cdone", k]
         # 3. pending connects are accepted within one second
         for k, c in enumerate(live):
@@ -585,6 +609,16 @@ class HealCtx(FsmCtx):
                 return
             self.coop = True
             self.stopped_at_switch = self.op_stopped
+            # the scenario is only meaningful if what the cooperative peer will send is a valid OPEN for this
+            # configuration (always true for generated runs; a replay whose configuration fields were reset
+            # one by one by the shrinker can pair the OPEN with another remote_as)
+            try:
+                fr = rp.deframe(bytes.fromhex(self.cfg["peer_open"]))[0]
+                om = rp.decode_open(fr[0].body)
+                if rp.open_acceptable(om, self.cfg["remote_as"]) or om.hold != self.cfg["peer_hold"]:
+                    self.stopped_at_switch = True
+            except (ValueError, IndexError, KeyError):
+                self.stopped_at_switch = True
             self.t_switch = w.now()
             w.handler_fail_in = None        # the application's storage works again
             self.first_coop_cid = len(w.conns)
@@ -698,7 +732,7 @@ class HealProfile(FsmProfile):
             "peer turns cooperative: resets old connections (30 % of runs: a connection the agent waits on in OpenSent is instead dead -- nothing ever arrives on it -- and the bound grows by the 240 s OpenSent hold timer), accepts connects within <=1 s, validates the agent's OPEN like a "
             "real router, answers with a valid OPEN and KEEPALIVEs every H/3 for 3 hold times; non-trivial = healed to "
             "Established; distinct = distinct prefix cell sequence + switch state")
-    probes = ["op:hfail", "handler_fault_fired:keepalive_received", "handler_fault_fired:send_open", "handler_fault_fired:open_received", "switch_with_dead_connection_in_OpenSent", "gen:default_handler_runs", "healed", "stayed_up_3H", "switch_in_IDLE", "switch_in_CONNECT", "switch_in_OPENSENT", "switch_in_OPENCONFIRM",
+    probes = ["gen:close_of_old_connection_completes_after_recovery", "op:hfail", "handler_fault_fired:keepalive_received", "handler_fault_fired:send_open", "handler_fault_fired:open_received", "switch_with_dead_connection_in_OpenSent", "gen:default_handler_runs", "healed", "stayed_up_3H", "switch_in_IDLE", "switch_in_CONNECT", "switch_in_OPENSENT", "switch_in_OPENCONFIRM",
               "switch_in_ESTABLISHED", "switch_during_close_completion", "ev:open_err6", "ev:open_hold0"]
 
     def gen_config(self, rng, idx, tier):
@@ -708,6 +742,7 @@ class HealProfile(FsmProfile):
         cfg["peer_hold"] = rng.pick([0, 3, 9, 30, 90, 180, 65535])
         cfg["connect_latency"] = rng.pick([0.0, 0.1, 1.0])
         cfg["dead_old_connection"] = rng.chance(0.3)
+        cfg["late_cdone"] = rng.chance(0.3)
         if rng.chance(0.35):
             # the application handler raises (storage full) now and then during the adversarial phase
             cfg["p_hfail"] = rng.pick([0.03, 0.08, 0.2])
